@@ -51,6 +51,7 @@ def dispatch (p : Params) (st : DState) (line : String) : DState × String :=
     else if op.startsWith "session." then (st, C19.run ws)
     else if op == "c07" || op == "c07.deep" then (st, C07.run p.maxPayload ws)
     else if op == "c07.idl" then (st, "ok-or-err")
+    else if op == "c07.idlx" then (st, "known-weakness")
     else if op.startsWith "sig." then (st, C09.run ws)
     else if op.startsWith "rd." || op.startsWith "val." || op.startsWith "enc." || op.startsWith "dec." then
       (st, Codec.run ws)
